@@ -73,7 +73,7 @@ int main(int argc, char **argv) {
   cur_case() = [] { return cell_json(CUR); };
   Stats &st = stats();
   std::vector<std::string> rsa = {"rsa_512", "rsa_1024", "rsa_1536", "rsa_2040", "rsa_2047", "rsa_2048", "rsa_2050", "rsa_2056", "rsa_3072", "rsa_4096"};
-  std::vector<std::string> ec = {"ec_p256", "ec_p384", "ec_p521", "ec_k256", "ec_p224", "ec_bp256", "ec_bp384"};
+  std::vector<std::string> ec = {"ec_p256", "ec_p384", "ec_p521", "ec_k256", "ec_p224", "ec_bp256", "ec_bp384", "ec_bp512", "ec_bp512t", "ec_bp320", "ec_p192", "ec_b571"};   // every curve OpenSSL will load, also those whose size is NEAR an algorithm's (512 vs 521, 570 vs 521)
   std::vector<std::string> okp = {"ed25519", "ed448"};
   const jwt_alg_t HS[] = {JWT_ALG_HS256, JWT_ALG_HS384, JWT_ALG_HS512}, RS[] = {JWT_ALG_RS256, JWT_ALG_RS384, JWT_ALG_RS512, JWT_ALG_PS256, JWT_ALG_PS384, JWT_ALG_PS512}, ES[] = {JWT_ALG_ES256, JWT_ALG_ES256K, JWT_ALG_ES384, JWT_ALG_ES512};
   if (!a.replay.empty()) {
